@@ -164,7 +164,7 @@ P['C06']={
 T="internal.tlsConfigPool."
 P['C20']={
  "functions":[T+"LoadTLSConfig",T+"updateCA","internal.BoolStrValue","internal.encodeConfig","internal.tlsConfigEncoder.hash","internal.tlsConfigEncoder.JSON","http.NewHTTPClient","internal.caFileReader.ID","internal.FileReader.ID","internal.FileWatcher.WatchFile"],
- "refines":[T+"LoadTLSConfig"],
+ "refines":[T+"LoadTLSConfig","internal.FileReader.ID","internal.FileReader.Read"],
  "lemmas":["L-hashbuf-injective"],
  "required":[T+"LoadTLSConfig:post:own_watcher","internal.FileWatcher.WatchFile:post:others","internal.caFileReader.ID:post:key",T+"LoadTLSConfig:post:trust",T+"LoadTLSConfig:post:shared",T+"LoadTLSConfig:post:pool",T+"LoadTLSConfig:post:none",T+"updateCA:post:updated",T+"updateCA:post:only_id","internal.tlsConfigEncoder.hash:post:id","internal.encodeConfig:post:enc","internal.BoolStrValue:post:val","lemma.L-hashbuf-injective:lemma:L-hashbuf-injective", T+"LoadTLSConfig:refine:TLSConfigPool.LoadTLSConfig.trust", T+"LoadTLSConfig:refine:repinv.src", "http.NewHTTPClient:post:tls_trust", "http.NewHTTPClient:post:tls_none"],
  "note":"trust function of the TLS configuration pool: which roots / skip-verify a *tls.Config built or pooled for given settings expresses; pooling keyed by the hash of the settings; CA replacement by updateCA. File watching (goroutines, tickers, elapsed time) and TLS handshakes are not decided"}
